@@ -169,13 +169,14 @@ def monitorProbed (script : List Cmd) (iters : List Iter) (d : Nat) (answersOnly
       -- the announcements (and the probes) carried the new one
       let staleSrv := r.ty == 33 && (rxs.any fun x => x.resp && x.k ≤ p.k) && pk.any fun q => q.k < p.k && q.resp &&
         (q.m.answers.any fun r' => r'.ty == 33 && lower r'.name == lower r.name && r'.rdata != r.rdata && r'.ttl > 0)
-      -- (the label of the lost tiebreak comes after the mechanisms that explain the record by
-      -- themselves - a late iteration, a re-registration: since the repair of D34 a competing probe
-      -- that was read is not a reason any more)
+      -- (a re-registration of the instance - D32, open - is judged before the mechanisms that are
+      -- repaired: since the repairs of D31, D33, D34 a late iteration, a shared probe or a
+      -- competing probe that was read explain nothing by themselves; their labels stay so that a
+      -- regression is named)
       if staleSrv then some s!"old-name-used-after-rename {what}"
       else if renamedName && probedBy asked p.t then some s!"record-missing-from-first-probe-after-rename {what}"
-      else if timeJump then some s!"announced-with-fewer-than-three-probes-late-iteration {what}"
       else if sameInst then some s!"answered-while-address-still-probing {what}"
+      else if timeJump then some s!"announced-with-fewer-than-three-probes-late-iteration {what}"
       else if sharedHost then some s!"announced-with-fewer-than-three-probes-shared-probe {what}"
       else if tiebreak then some s!"probe-resumes-without-wakeup-after-lost-tiebreak {what}"
       else some s!"record-sent-before-three-probes {what}"
